@@ -16,7 +16,7 @@ IMPORTS = "Registry.Model"
 
 # ------------------------------------------------------------------------------------------
 # abstract histories: list of ops
-#   ["sp", a, name|None, kind, ps]   kind ok|fail|park|remote|remotepark|tlok|tlfail|tlpark ; ps 0|1
+#   ["sp", a, name|None, kind, ps]   kind ok|fail|lfail|park|remote|remotepark|tlok|tlfail|tllfail|tlpark ; ps 0|1
 #        (tl* = spawned through the thread-local API: ActorCell::new_thread_local enrols the cell in the same
 #         two registries, name then pid, so the model actor is an ordinary local one)
 #   ["go", a, ok] ["stop", a] ["kill", a] ["err", a] ["panic", a] ["drain", a] (exit causes)
@@ -24,7 +24,10 @@ IMPORTS = "Registry.Model"
 #   ["rel", a] ["wait", a] ["wh", name] ["whp", a]
 
 def base_kind(kind):
-    return kind[2:] if kind.startswith("tl") else kind
+    k = kind[2:] if kind.startswith("tl") else kind
+    # lfail = linked spawn under a supervisor that has already stopped: start() fails after the cell
+    # was enrolled; same labels and events as a failing pre_start
+    return "fail" if k == "lfail" else k
 
 
 def translate(ops):
@@ -86,6 +89,8 @@ def translate(ops):
             hops.append(f"rel {a}")
             labels.append(f"LFinish {a}")
             finished(a)
+        elif k in ("wait", "whp") and acts[op[1]]["kind"].endswith("lfail"):
+            continue   # the spawn returned Err before pre_start: the driver never gets a handle on that cell
         elif k == "wait":
             a = op[1]
             hops.append(f"wait {a}")
@@ -151,7 +156,7 @@ def gen_history(rng):
             ops.append(["ldrain", rng.choice([a for a in late if acts[a]["phase"] == "psparked"] or late)])
         elif r < 0.30 or not acts:
             name = rng.choice(names + names + [None]) if rng.random() < 0.9 else None
-            kind = rng.choice(["ok", "ok", "ok", "park", "park", "fail", "remote", "remotepark"])
+            kind = rng.choice(["ok", "ok", "ok", "park", "park", "fail", "lfail", "remote", "remotepark"])
             if name is None and kind.startswith("remote"):
                 kind = "ok"
             ps = rng.choice([0, 0, 1])
@@ -159,9 +164,9 @@ def gen_history(rng):
             nxt += 1
             remote = kind.startswith("remote")
             taken = (not remote) and name is not None and name in holder
-            acts[a] = {"phase": "failed" if taken else {"ok": "run", "remote": "run", "fail": "stopped",
+            acts[a] = {"phase": "failed" if taken else {"ok": "run", "remote": "run", "fail": "stopped", "lfail": "stopped",
                                                           "park": "pre", "remotepark": "pre"}[kind],
-                       "name": name, "remote": remote, "ps": ps, "cell": not taken}
+                       "name": name, "remote": remote, "ps": ps, "cell": not taken and kind != "lfail"}  # lfail: no handle at all
             if not remote and tl_p and rng.random() < tl_p:
                 kind = "tl" + kind
             if not taken and not remote and name is not None and base_kind(kind) != "fail":
@@ -210,13 +215,21 @@ def directed():
     # holder and the rejected spawn come through and whatever the holder is doing (running, parked in pre_start);
     # afterwards the name is still taken for everybody, and free again only after the holder's exit
     for hk in ("ok", "tlok", "park", "tlpark"):
-        for dk in ("ok", "tlok", "tlpark", "tlfail", "fail"):
+        for dk in ("ok", "tlok", "tlpark", "tlfail", "fail", "lfail", "tllfail"):
             for third in ("ok", "tlok"):
                 ops = [["sp", 0, 1, hk, 0], ["wh", 1], ["sp", 1, 1, dk, 0], ["wh", 1], ["whp", 0], ["sp", 2, 1, third, 0], ["wh", 1]]
                 if base_kind(hk) == "park":
                     ops += [["go", 0, True], ["wh", 1]]
                 ops += [["stop", 0], ["wait", 0], ["wh", 1], ["sp", 3, 1, dk, 0], ["wh", 1], ["whp", 3]]
                 out.append(ops)
+    # (c) a spawn that fails in start() after the cell was enrolled (linked under a supervisor that has already
+    # stopped; Send and thread-local) releases name and pid: lookup finds nothing, the name can be taken at once
+    for fk in ("lfail", "tllfail", "fail", "tlfail"):
+        for nk in ("ok", "tlok", "lfail", "tllfail"):
+            h = 1 if nk in ("ok", "tlok") else 2   # who holds the name after the three spawns
+            out.append([["sp", 0, 1, fk, 0], ["wh", 1], ["sp", 1, 1, nk, 0], ["wh", 1], ["sp", 2, 1, "ok", 0],
+                        ["wh", 1], ["whp", h], ["stop", h], ["wait", h], ["wh", 1], ["sp", 3, 1, fk, 0], ["wh", 1],
+                        ["sp", 4, 1, "tlok", 0], ["wh", 1]])
     # two names: the rejected spawn must not disturb the other name either
     for dk in ("tlok", "ok"):
         out.append([["sp", 0, 1, "ok", 0], ["sp", 1, 2, "tlok", 0], ["sp", 2, 1, dk, 0], ["sp", 3, 2, dk, 0], ["wh", 1], ["wh", 2],
